@@ -116,6 +116,10 @@ example : (run ({} : St) demoActs).map (·.acked) = some [1, 0, 2] := by decide
 example : (run ({} : St) demoActs).map (·.sentLog) = some [(0, 0), (0, 1), (2, 0), (2, 2)] := by decide
 example : (run ({} : St) demoActs).map (fun s => s.queue ++ s.inflight ++ s.disk) = some [] := by decide
 
+/-- a transmitted chunk and a queued chunk given up later (unreadable file, size limit at hand-back) are counted, not forgotten -/
+example : (run ({} : St) [.read, .flushAccept, .read, .flushAccept, .take, .drop 0, .drop 1]).map (fun s => (s.queue, s.inflight, s.dropped)) =
+    some ([], [], [0, 1]) := by decide
+
 /-! ### refinement: the client transition system implements the client-side actions of `E2E.step`
 
 `E2E.step` assumes of the forwarding client that a chunk it takes is the oldest one waiting, that an
